@@ -6,13 +6,21 @@ package olla
 
 // ---- C08: the olla engine's per-endpoint circuit breaker (state 0=closed 1=open 2=half-open)
 
+//@ spec func ocbInv(c *circuitBreaker) bool = c != nil && (c.state == 0 || c.state == 1 || c.state == 2) && c.failures >= 0 && c.threshold >= 1 && (c.state != 0 ==> c.failures >= c.threshold)
 //@ type circuitBreaker
-//@   repinv self.state == 0 || self.state == 1 || self.state == 2
-//@   repinv self.failures >= 0 && self.threshold >= 1
-//@   repinv self.state != 0 ==> self.failures >= self.threshold
+//@   repinv ocbInv(self)
+
+// every breaker stored in the engine's map satisfies the breaker invariant: GetCircuitBreaker (the only writer of
+// the map) requires and re-establishes it, breaker methods preserve ocbInv of their receiver
+//@ spec func breakersOK(s *Service) bool = forall k string :: xhas(s.circuitBreakers, k) ==> ocbInv(xget(s.circuitBreakers, k))
+
+//@ ghost var isOpenCount int
+//@ ghost var lastIsOpen bool
 
 //@ func (cb *circuitBreaker) IsOpen
 //@   property C08 C04
+//@   records isOpenCount = old(isOpenCount) + 1
+//@   records lastIsOpen = res
 //@   modifies cb.state
 //@   ensures old(cb.state) != 1 ==> res == false && cb.state == old(cb.state)
 //@   ensures old(cb.state) == 1 && now - cb.lastFailure <= 30000000000 ==> res == true && cb.state == 1
@@ -34,8 +42,49 @@ package olla
 
 //@ func (s *Service) GetCircuitBreaker
 //@   property C08
+//@   requires breakersOK(s)
+//@   ensures breakersOK(s)
 //@   modifies s.circuitBreakers[all]
-//@   ensures res != nil ==> (fresh(res) ==> res.threshold == 5 && res.state == 0 && res.failures == 0)
+//@   ensures res != nil && ocbInv(res)
+//@   ensures fresh(res) ==> res.threshold == 5 && res.state == 0 && res.failures == 0
 //@   ensures old(xhas(s.circuitBreakers, endpoint)) ==> res == old(xget(s.circuitBreakers, endpoint))
 //@   ensures xhas(s.circuitBreakers, endpoint) && xget(s.circuitBreakers, endpoint) == res
 //@   ensures forall k string :: k != endpoint ==> xhas(s.circuitBreakers, k) == old(xhas(s.circuitBreakers, k)) && xget(s.circuitBreakers, k) == old(xget(s.circuitBreakers, k))
+
+// ---- one attempt of the olla engine (C01, C02, C04, C15, C19)
+
+//@ func (s *Service) getOrCreateEndpointPool
+//@   trusted connection-pool bookkeeping (transport construction is outside the modelled subset); assumed to touch only the pool map
+//@   ensures res != nil && res.transport != nil
+
+//@ func (s *Service) streamResponse
+//@   trusted not yet under contract: the streaming loop (see C18); assumed to write only to w
+//@   modifies ghost(w).started, ghost(w).status
+//@   ensures old(ghost(w).started) ==> ghost(w).started
+//@   ensures !errorsAs(res2, "*core.ResponseStartedError") && !errorsIs(res2, core.ErrCircuitOpen)
+
+//@ func (s *Service) prepareProxyRequest
+//@   property C01 C15
+//@   requires r != nil && stats != nil && targetURL != nil
+//@   modifies stats.HeaderProcessingMs, stats.Model, stats.RequestProcessingMs
+//@   ensures (res1 == nil) == (res0 != nil)
+//@   ensures res0 != nil ==> fresh(res0) && res0.Method == r.Method && res0.Body == r.Body && res0.Header != nil && ghost(res0).reqURL == purecall("(*net/url.URL).String", "string", targetURL)
+//@   ensures res0 != nil ==> forall k string :: has(res0.Header, k) ==> !sensHeader(k) && !hopHeader(k)
+
+//@ func (s *Service) proxyToSingleEndpoint
+//@   property C01 C02 C04 C15 C19
+//@   requires s != nil && r != nil && r.URL != nil && endpoint != nil && endpoint.URL != nil && stats != nil
+//@   requires !ghost(w).started && ghost(w).hdr != nil && breakersOK(s)
+//@   uses rse_not_circuit
+//@   modifies *
+//@   loop 1 invariant !ghost(w).started && rtCount == old(rtCount) + 1 && recSuccess == old(recSuccess) && recFailure == old(recFailure)
+//@   loop 2 invariant !ghost(w).started && rtCount == old(rtCount) + 1 && recSuccess == old(recSuccess) && recFailure == old(recFailure)
+//@   ensures res != nil && (connErr(res) || circuitOpen(res)) ==> !ghost(w).started
+//@   ensures recSuccess + recFailure == old(recSuccess) + old(recFailure) + 1
+//@   ensures res == nil ==> recSuccess == old(recSuccess) + 1 && rtCount == old(rtCount) + 1
+//@   ensures rtCount <= old(rtCount) + 1
+//@   ensures res != nil && circuitOpen(res) ==> rtCount == old(rtCount)
+//@   ensures isOpenCount == old(isOpenCount) + 1
+//@   ensures lastIsOpen ==> rtCount == old(rtCount) && res != nil && circuitOpen(res) && !ghost(w).started
+//@   at call RoundTrip 1 assert proxyReq != nil && proxyReq.Method == r.Method && proxyReq.Body == r.Body && !ghost(w).started
+//@   at call RoundTrip 1 assert forall k string :: has(proxyReq.Header, k) ==> !sensHeader(k) && !hopHeader(k)
